@@ -319,14 +319,12 @@ theorem strGetOwn_eq (stored : Layer) (len : Nat) (name : List Nat) (hlen : len 
 /-- `binary` when the right operand needs no GetValue any more -/
 def binaryV (E : Env) (op : BOp) (lv rv : Vl) (log : List String) : Res Vl := binary E op lv (.value rv) log
 
-/-- every operator except `+` resolves its right operand before anything else -/
-theorem binary_getValue (E : Env) (op : BOp) (lv : Vl) (right : Rf) (log : List String) (h : op ≠ .num .add) :
+/-- every operator resolves its right operand (GetValue) before any conversion -/
+theorem binary_getValue (E : Env) (op : BOp) (lv : Vl) (right : Rf) (log : List String) :
     binary E op lv right log = (getValue right log).bind (binaryV E op lv) := by
   cases op with
   | num o =>
-    cases o <;> first
-      | exact absurd rfl h
-      | (simp only [binary]; apply bind_congr; intro rv l; simp only [binaryV, binary, getValue, bind_ok])
+    cases o <;> (simp only [binary]; apply bind_congr; intro rv l; simp only [binaryV, binary, getValue, bind_ok])
   | cmp c => simp only [binary]; apply bind_congr; intro rv l; simp only [binaryV, binary, getValue, bind_ok]
   | instOf => simp only [binary]; apply bind_congr; intro rv l; simp only [binaryV, binary, getValue, bind_ok]
   | inOp => simp only [binary]; apply bind_congr; intro rv l; simp only [binaryV, binary, getValue, bind_ok]
@@ -389,17 +387,6 @@ theorem binaryV_eq (E : Env) (op : BOp) (lv rv : Vl) (log : List String) (hl : W
   | inOp =>
     simp only [binaryV, binary, Spec.binary, getValue, bind_ok]
     cases rv <;> simp only [stringV_eq, getProperty_eq]
-
-/-- `+` with a primitive on the left: its ToPrimitive is the identity, so doing it before GetValue(right)
-    is not observable -/
-theorem binary_add_prim (E : Env) (p : Val) (right : Rf) (log : List String) :
-    binary E (.num .add) (.prim p) right log = (getValue right log).bind (Spec.binary E (.num .add) (.prim p)) := by
-  have h1 : ofR (toPrimitive (Vl.prim p).toOV .none log) = .ok p log := rfl
-  simp only [binary, h1, bind_ok]
-  apply bind_congr; intro rv l
-  simp only [Spec.binary, toPrimV_prim, bind_ok, toPrimV_eq]
-  apply bind_congr; intro rp l2
-  rw [binNum_arith_eq E .add (Or.inl rfl)]
 
 /-! ## Operator results are well formed (so that results can be operands again) -/
 
@@ -495,16 +482,16 @@ theorem binary_wf (E : Env) (op : BOp) (lv : Vl) (right : Rf) (log : List String
     by_cases ho : o = .add
     · subst ho
       simp only [binary]
-      refine ResAll_bind WF WFV _ _ (toPrimitive_wf lv .none log hl) ?_
-      intro lp l1 hlp
-      refine ResAll_bind WFV WFV _ _ (getValue_wf right l1 hr) ?_
-      intro rv l2 hrv
+      refine ResAll_bind WFV WFV _ _ (getValue_wf right log hr) ?_
+      intro rv l1 hrv
+      refine ResAll_bind WF WFV _ _ (toPrimitive_wf lv .none l1 hl) ?_
+      intro lp l2 hlp
       refine ResAll_bind WF WFV _ _ (toPrimitive_wf rv .none l2 hrv) ?_
       intro rp l3 hrp
       split
       · simp [ResAll, WFV, WF]
       · exact binNum_wf E .add lp rp hlp hrp
-    · rw [binary_getValue E (.num o) lv right log (by simpa using ho)]
+    · rw [binary_getValue E (.num o) lv right log]
       refine ResAll_bind WFV WFV _ _ (getValue_wf right log hr) ?_
       intro rv l1 hrv
       have hm : binaryV E (.num o) lv rv l1 =
@@ -603,265 +590,14 @@ theorem eval_wf (E : Env) (e : Ex) (h : WFEx e) : ∀ log, ResAll WFRf (eval E e
     refine ResAll_bind WFV WFRf _ _ (getValue_wf test l1 htest) ?_
     intro tv l2 _
     split
-    · exact iht h.2.1 _
-    · exact ihf h.2.2 _
+    · refine ResAll_bind WFRf WFRf _ _ (iht h.2.1 _) ?_
+      intro r l3 hr
+      exact ResAll_bind WFV WFRf _ _ (getValue_wf r l3 hr) (fun v l4 hv => hv)
+    · refine ResAll_bind WFRf WFRf _ _ (ihf h.2.2 _) ?_
+      intro r l3 hr
+      exact ResAll_bind WFV WFRf _ _ (getValue_wf r l3 hr) (fun v l4 hv => hv)
 
-/-! ## What an evaluation can hand to its consumer -/
-
-/-- the result, if any, is a value (not a reference) -/
-def Settled (r : Res Rf) : Prop := ∀ rf l, r = .ok rf l → ∃ v, rf = .value v
-
-/-- the result is not an unresolvable reference -/
-def NoUnres (r : Res Rf) : Prop := ∀ l, r ≠ .ok .unres l
-
-theorem noUnres_of_settled (r : Res Rf) (h : Settled r) : NoUnres r := by
-  intro l e
-  obtain ⟨v, hv⟩ := h _ _ e
-  cases hv
-
-theorem settled_tail (r : Res Vl) : Settled (r.bind fun v l => .ok (.value v) l) := by
-  intro rf l e
-  cases r <;> simp only [bind_ok, bind_typeError, bind_refError, bind_thrown] at e <;> try cases e
-  exact ⟨_, rfl⟩
-
-theorem settled_bind {α : Type} (r : Res α) (f : α → List String → Res Rf) (h : ∀ a l, Settled (f a l)) :
-    Settled (r.bind f) := by
-  intro rf l e
-  cases r <;> simp only [bind_ok, bind_typeError, bind_refError, bind_thrown] at e <;> try cases e
-  exact h _ _ _ _ e
-
-theorem noUnres_bind {α : Type} (r : Res α) (f : α → List String → Res Rf) (h : ∀ a l, NoUnres (f a l)) :
-    NoUnres (r.bind f) := by
-  intro l e
-  cases r <;> simp only [bind_ok, bind_typeError, bind_refError, bind_thrown] at e <;> try cases e
-  exact h _ _ _ e
-
-theorem settled_ok_value (v : Vl) (l : List String) : Settled (.ok (.value v) l) := by
-  intro rf l' e; cases e; exact ⟨_, rfl⟩
-
-/-- otto: everything but a leaf and `?:` yields a value -/
-theorem eval_settled (E : Env) (e : Ex) (h : lateRef e = false) : ∀ log, Settled (eval E e log) := by
-  induction e with
-  | leaf r =>
-    intro log
-    cases r with
-    | value v => exact settled_ok_value v log
-    | unres => simp [lateRef] at h
-    | getter t v => simp [lateRef] at h
-  | seq t e _ =>
-    intro log; simp only [eval]
-    exact settled_bind _ _ fun r l1 => settled_tail _
-  | un op e _ =>
-    intro log; simp only [eval]
-    exact settled_bind _ _ fun r l1 => settled_tail _
-  | bin op a b _ _ =>
-    intro log; simp only [eval]
-    exact settled_bind _ _ fun _ _ => settled_bind _ _ fun _ _ => settled_bind _ _ fun _ _ => settled_tail _
-  | and a b _ _ =>
-    intro log; simp only [eval]
-    refine settled_bind _ _ fun _ _ => settled_bind _ _ fun lv l2 => ?_
-    split
-    · exact settled_ok_value _ _
-    · exact settled_bind _ _ fun _ _ => settled_tail _
-  | or a b _ _ =>
-    intro log; simp only [eval]
-    refine settled_bind _ _ fun _ _ => settled_bind _ _ fun lv l2 => ?_
-    split
-    · exact settled_ok_value _ _
-    · exact settled_bind _ _ fun _ _ => settled_tail _
-  | cond c t f _ iht ihf =>
-    intro log; simp only [eval]
-    simp only [lateRef, Bool.or_eq_false_iff] at h
-    refine settled_bind _ _ fun _ _ => settled_bind _ _ fun tv l2 => ?_
-    split
-    · exact iht h.1 _
-    · exact ihf h.2 _
-
-/-- otto hands an unresolvable reference to a consumer only from an undeclared identifier, possibly
-    through `?:` -/
-theorem eval_noUnres (E : Env) (e : Ex) (h : yieldsUnres e = false) : ∀ log, NoUnres (eval E e log) := by
-  induction e with
-  | leaf r =>
-    intro log l e
-    cases r with
-    | value v => cases e
-    | unres => simp [yieldsUnres] at h
-    | getter t v => cases e
-  | seq t e _ =>
-    intro log; simp only [eval]
-    exact noUnres_of_settled _ (settled_bind _ _ fun r l1 => settled_tail _)
-  | un op e _ =>
-    intro log; simp only [eval]
-    exact noUnres_of_settled _ (settled_bind _ _ fun r l1 => settled_tail _)
-  | bin op a b _ _ =>
-    intro log; simp only [eval]
-    exact noUnres_of_settled _ (settled_bind _ _ fun _ _ => settled_bind _ _ fun _ _ => settled_bind _ _ fun _ _ => settled_tail _)
-  | and a b _ _ => exact fun log => noUnres_of_settled _ (eval_settled E _ rfl log)
-  | or a b _ _ => exact fun log => noUnres_of_settled _ (eval_settled E _ rfl log)
-  | cond c t f _ iht ihf =>
-    intro log; simp only [eval]
-    simp only [yieldsUnres, Bool.or_eq_false_iff] at h
-    refine noUnres_bind _ _ fun _ _ => noUnres_bind _ _ fun tv l2 => ?_
-    split
-    · exact iht h.1 _
-    · exact ihf h.2 _
-
-def isUnresLeaf : Ex → Bool
-  | .leaf .unres => true
-  | _ => false
-
-/-- ES5: only an identifier evaluates to an unresolvable reference (§11.12, §11.11, §11.14 … all GetValue) -/
-theorem spec_eval_noUnres (E : Env) (e : Ex) (h : isUnresLeaf e = false) (log : List String) : NoUnres (Spec.eval E e log) := by
-  cases e with
-  | leaf r =>
-    intro l e
-    cases r with
-    | value v => cases e
-    | unres => simp [isUnresLeaf] at h
-    | getter t v => cases e
-  | seq t e => simp only [Spec.eval]; exact noUnres_of_settled _ (settled_bind _ _ fun r l1 => settled_tail _)
-  | un op e => simp only [Spec.eval]; exact noUnres_of_settled _ (settled_bind _ _ fun r l1 => settled_tail _)
-  | bin op a b =>
-    simp only [Spec.eval]
-    exact noUnres_of_settled _ (settled_bind _ _ fun _ _ => settled_bind _ _ fun _ _ => settled_bind _ _ fun _ _ =>
-      settled_bind _ _ fun _ _ => settled_tail _)
-  | and a b =>
-    simp only [Spec.eval]
-    refine noUnres_of_settled _ (settled_bind _ _ fun _ _ => settled_bind _ _ fun lv l2 => ?_)
-    split
-    · exact settled_ok_value _ _
-    · exact settled_bind _ _ fun _ _ => settled_tail _
-  | or a b =>
-    simp only [Spec.eval]
-    refine noUnres_of_settled _ (settled_bind _ _ fun _ _ => settled_bind _ _ fun lv l2 => ?_)
-    split
-    · exact settled_ok_value _ _
-    · exact settled_bind _ _ fun _ _ => settled_tail _
-  | cond c t f =>
-    simp only [Spec.eval]
-    refine noUnres_of_settled _ (settled_bind _ _ fun _ _ => settled_bind _ _ fun tv l2 => ?_)
-    split
-    · exact settled_bind _ _ fun _ _ => settled_tail _
-    · exact settled_bind _ _ fun _ _ => settled_tail _
-
-/-! ## Results that are primitives -/
-
-def IsPrim (v : Vl) : Prop := ∃ p, v = .prim p
-
-/-- whatever the evaluation hands over resolves to a primitive -/
-def PrimRes (r : Res Rf) : Prop := ∀ rf l, r = .ok rf l → ∀ v l', getValue rf l = .ok v l' → IsPrim v
-
-theorem primRes_tail_on (r : Res Vl) (h : ∀ v l, r = .ok v l → IsPrim v) :
-    PrimRes (r.bind fun v l => .ok (.value v) l) := by
-  intro rf l e v l' g
-  cases r <;> simp only [bind_ok, bind_typeError, bind_refError, bind_thrown] at e <;> try cases e
-  cases g
-  exact h _ _ rfl
-
-theorem primRes_tail (r : Res Vl) (h : ResAll IsPrim r) : PrimRes (r.bind fun v l => .ok (.value v) l) :=
-  primRes_tail_on r fun v l e => ResAll_ok IsPrim r h v l e
-
-theorem primRes_bind_on {α : Type} (r : Res α) (f : α → List String → Res Rf)
-    (h : ∀ a l, r = .ok a l → PrimRes (f a l)) : PrimRes (r.bind f) := by
-  intro rf l e
-  cases r <;> simp only [bind_ok, bind_typeError, bind_refError, bind_thrown] at e <;> try cases e
-  exact h _ _ rfl _ _ e
-
-theorem unaryV_prim (E : Env) (op : UOp) (v : Vl) (log : List String) : ResAll IsPrim (unaryV E op v log) := by
-  cases op <;> simp only [unaryV] <;>
-    repeat' first
-      | exact ⟨_, rfl⟩
-      | refine ResAll_bind (fun _ => True) IsPrim _ _ (ResAll_true _) (fun _ _ _ => ?_)
-
-theorem unary_prim (E : Env) (op : UOp) (r : Rf) (log : List String) : ResAll IsPrim (unary E op r log) := by
-  have key : ResAll IsPrim ((getValue r log).bind (unaryV E op)) :=
-    ResAll_bind (fun _ => True) IsPrim _ _ (ResAll_true _) (fun a l _ => unaryV_prim E op a l)
-  cases op <;> cases r <;> simp only [unary] <;> first | exact key | exact ⟨_, rfl⟩
-
-theorem binary_prim (E : Env) (op : BOp) (lv : Vl) (right : Rf) (log : List String) :
-    ResAll IsPrim (binary E op lv right log) := by
-  cases op with
-  | num o =>
-    cases o <;> simp only [binary] <;>
-      repeat' first
-        | exact ⟨_, rfl⟩
-        | refine ResAll_bind (fun _ => True) IsPrim _ _ (ResAll_true _) (fun _ _ _ => ?_)
-        | split
-  | cmp c =>
-    simp only [binary]
-    repeat' first
-      | exact ⟨_, rfl⟩
-      | refine ResAll_bind (fun _ => True) IsPrim _ _ (ResAll_true _) (fun _ _ _ => ?_)
-  | instOf =>
-    simp only [binary]
-    refine ResAll_bind (fun _ => True) IsPrim _ _ (ResAll_true _) (fun rv _ _ => ?_)
-    cases rv with
-    | prim _ => trivial
-    | obj f => exact ResAll_bind (fun _ => True) IsPrim _ _ (ResAll_true _) (fun _ _ _ => ⟨_, rfl⟩)
-  | inOp =>
-    simp only [binary]
-    refine ResAll_bind (fun _ => True) IsPrim _ _ (ResAll_true _) (fun rv _ _ => ?_)
-    cases rv with
-    | prim _ => trivial
-    | obj f => exact ResAll_bind (fun _ => True) IsPrim _ _ (ResAll_true _) (fun _ _ _ => ⟨_, rfl⟩)
-
-/-- an expression that cannot evaluate to an object (Ops2.mayObj) evaluates to a primitive -/
-theorem eval_prim (E : Env) (e : Ex) (h : mayObj e = false) : ∀ log, PrimRes (eval E e log) := by
-  induction e with
-  | leaf r =>
-    intro log rf l e v l' g
-    cases e
-    cases r with
-    | value v0 =>
-      cases g
-      cases v with
-      | prim p => exact ⟨p, rfl⟩
-      | obj b => simp [mayObj] at h
-    | unres => cases g
-    | getter t v0 =>
-      cases g
-      cases v with
-      | prim p => exact ⟨p, rfl⟩
-      | obj b => simp [mayObj] at h
-  | seq t e ih =>
-    intro log; simp only [eval]
-    simp only [mayObj] at h
-    refine primRes_bind_on _ _ fun r l1 er => primRes_tail_on _ fun v l2 eg => ?_
-    exact ih h _ r l1 er v l2 eg
-  | un op e _ =>
-    intro log; simp only [eval]
-    exact primRes_bind_on _ _ fun r l1 _ => primRes_tail _ (unary_prim E op r l1)
-  | bin op a b _ _ =>
-    intro log; simp only [eval]
-    exact primRes_bind_on _ _ fun _ _ _ => primRes_bind_on _ _ fun lv _ _ => primRes_bind_on _ _ fun right l3 _ =>
-      primRes_tail _ (binary_prim E op lv right l3)
-  | and a b iha ihb =>
-    intro log; simp only [eval]
-    simp only [mayObj, Bool.or_eq_false_iff] at h
-    refine primRes_bind_on _ _ fun left l1 el => primRes_bind_on _ _ fun lv l2 eg => ?_
-    have hlv : IsPrim lv := iha h.1 _ left l1 el lv l2 eg
-    split
-    · intro rf l e v l' g; cases e; cases g; exact hlv
-    · refine primRes_bind_on _ _ fun right l3 er => primRes_tail_on _ fun rv l4 eg2 => ?_
-      exact ihb h.2 _ right l3 er rv l4 eg2
-  | or a b iha ihb =>
-    intro log; simp only [eval]
-    simp only [mayObj, Bool.or_eq_false_iff] at h
-    refine primRes_bind_on _ _ fun left l1 el => primRes_bind_on _ _ fun lv l2 eg => ?_
-    have hlv : IsPrim lv := iha h.1 _ left l1 el lv l2 eg
-    split
-    · intro rf l e v l' g; cases e; cases g; exact hlv
-    · refine primRes_bind_on _ _ fun right l3 er => primRes_tail_on _ fun rv l4 eg2 => ?_
-      exact ihb h.2 _ right l3 er rv l4 eg2
-  | cond c t f _ iht ihf =>
-    intro log; simp only [eval]
-    simp only [mayObj, Bool.or_eq_false_iff] at h
-    refine primRes_bind_on _ _ fun _ _ _ => primRes_bind_on _ _ fun tv l2 _ => ?_
-    split
-    · exact iht h.1 _
-    · exact ihf h.2 _
-
-/-! ## Expressions: otto's evaluator against ES5, outside the two regions -/
+/-! ## Expressions: otto's evaluator = the ES5 evaluation -/
 
 /-- GetValue of whatever the evaluation yields -/
 def gv (r : Res Rf) : Res Vl := r.bind getValue
@@ -869,30 +605,8 @@ def gv (r : Res Rf) : Res Vl := r.bind getValue
 /-- a value as the result of an evaluation -/
 def K (v : Vl) (l : List String) : Res Rf := .ok (.value v) l
 
-theorem gv_K (r : Res Vl) : gv (r.bind K) = r := by cases r <;> rfl
-
-theorem gv_bind {α : Type} (r : Res α) (f : α → List String → Res Rf) :
-    gv (r.bind f) = r.bind fun a l => gv (f a l) := bind_assoc r f getValue
-
-theorem settled_roundtrip (r : Res Rf) (h : Settled r) : (gv r).bind K = r := by
-  cases r with
-  | ok rf l => obtain ⟨v, rfl⟩ := h rf l rfl; rfl
-  | typeError l => rfl
-  | refError l => rfl
-  | thrown v l => rfl
-
 theorem gv_wf (E : Env) (e : Ex) (h : WFEx e) (log : List String) : ResAll WFV (gv (eval E e log)) :=
   ResAll_bind WFRf WFV _ _ (eval_wf E e h log) (fun r l hr => getValue_wf r l hr)
-
-theorem gv_prim (E : Env) (e : Ex) (h : mayObj e = false) (log : List String) (v : Vl) (l : List String)
-    (hv : gv (eval E e log) = .ok v l) : IsPrim v := by
-  cases he : eval E e log with
-  | ok rf l1 =>
-    rw [he] at hv
-    exact eval_prim E e h log rf l1 he v l hv
-  | typeError l1 => rw [he] at hv; cases hv
-  | refError l1 => rw [he] at hv; cases hv
-  | thrown x l1 => rw [he] at hv; cases hv
 
 theorem eval_seq (E : Env) (t : String) (e : Ex) (log : List String) :
     eval E (.seq t e) log = (gv (eval E e (log ++ [t]))).bind K := by
@@ -908,8 +622,10 @@ theorem spec_un (E : Env) (op : UOp) (e : Ex) (log : List String) :
 
 theorem eval_bin (E : Env) (op : BOp) (a b : Ex) (log : List String) :
     eval E (.bin op a b) log = (gv (eval E a log)).bind fun lv l2 =>
-      (eval E b l2).bind fun right l3 => (binary E op lv right l3).bind K := by
-  rw [gv, bind_assoc]; rfl
+      (gv (eval E b l2)).bind fun rv l4 => (binaryV E op lv rv l4).bind K := by
+  rw [gv, bind_assoc]
+  simp only [eval, gv, bind_assoc, binary_getValue]
+  rfl
 theorem spec_bin (E : Env) (op : BOp) (a b : Ex) (log : List String) :
     Spec.eval E (.bin op a b) log = (gv (Spec.eval E a log)).bind fun lv l2 =>
       (gv (Spec.eval E b l2)).bind fun rv l4 => (Spec.binary E op lv rv l4).bind K := by
@@ -944,8 +660,10 @@ theorem spec_or (E : Env) (a b : Ex) (log : List String) :
 
 theorem eval_cond (E : Env) (c t f : Ex) (log : List String) :
     eval E (.cond c t f) log = (gv (eval E c log)).bind fun tv l2 =>
-      if boolV tv then eval E t l2 else eval E f l2 := by
-  rw [gv, bind_assoc]; rfl
+      if boolV tv then (gv (eval E t l2)).bind K else (gv (eval E f l2)).bind K := by
+  rw [gv, bind_assoc]
+  simp only [eval, gv, bind_assoc]
+  rfl
 theorem spec_cond (E : Env) (c t f : Ex) (log : List String) :
     Spec.eval E (.cond c t f) log = (gv (Spec.eval E c log)).bind fun tv l2 =>
       if Spec.toBooleanV tv then (gv (Spec.eval E t l2)).bind K else (gv (Spec.eval E f l2)).bind K := by
@@ -953,190 +671,65 @@ theorem spec_cond (E : Env) (c t f : Ex) (log : List String) :
   simp only [Spec.eval, gv, bind_assoc]
   rfl
 
-theorem unary_via_gv (E : Env) (op : UOp) (r : Res Rf) (h : op ≠ .typeof ∨ NoUnres r) :
-    (r.bind fun t l => (Spec.unary E op t l).bind K) = (gv r).bind fun v l => (Spec.unaryV E op v l).bind K := by
-  cases r with
-  | ok a l =>
-    simp only [gv, bind_ok]
-    have : Spec.unary E op a l = (getValue a l).bind (Spec.unaryV E op) := by
-      cases op <;> cases a <;> first
-        | rfl
-        | (exfalso; rcases h with h | h
-           · exact h rfl
-           · exact h l rfl)
-    rw [this, bind_assoc]
-  | typeError l => rfl
-  | refError l => rfl
-  | thrown v l => rfl
-
-theorem yieldsUnres_cases (e : Ex) (h : yieldsUnres e = true) : isCond e = true ∨ isUnresLeaf e = true := by
-  cases e with
-  | leaf r => cases r <;> simp [yieldsUnres, isUnresLeaf] at *
-  | cond c t f => left; rfl
-  | _ => simp [yieldsUnres] at h
-
-theorem leaf_of_isUnresLeaf (e : Ex) (h : isUnresLeaf e = true) : e = .leaf .unres := by
-  cases e with
-  | leaf r => cases r <;> simp [isUnresLeaf] at * 
-  | _ => simp [isUnresLeaf] at h
-
 /-- THE EXPRESSION THEOREM.  For every expression tree (unary, arithmetic, bitwise, shift, relational,
-    equality, instanceof, in, && || ?:, comma; operands of any shape, scripted objects, getters, undeclared
-    identifiers) outside `cond_reference` and `plus_getvalue_late`, and for every starting log:
-    GetValue of otto's evaluation = GetValue of the ES5 evaluation (value or thrown error AND the complete
-    log of side effects, i.e. the order of operand evaluation and of every valueOf/toString call), and
-    where the expression is not a bare reference the two evaluations agree as they are. -/
-theorem eval_sim (E : Env) (e : Ex) (hwf : WFEx e) (hc : devCond e = false) (hp : devPlus e = false) :
-    ∀ log, gv (eval E e log) = gv (Spec.eval E e log) ∧ (lateRef e = false → eval E e log = Spec.eval E e log) := by
+    equality, instanceof, in, && || ?:, comma; operands of any shape: scripted objects, getters, undeclared
+    identifiers) and every starting log, otto's evaluation IS the ES5 evaluation: the same Reference or value
+    or thrown error, and the same complete log of side effects, i.e. the order of operand evaluation
+    (GetValue) and of every valueOf/toString call.  No deviation region. -/
+theorem eval_eq (E : Env) (e : Ex) (hwf : WFEx e) : ∀ log, eval E e log = Spec.eval E e log := by
   induction e with
-  | leaf r => intro log; exact ⟨rfl, fun _ => rfl⟩
-  | seq t e ih =>
-    intro log
-    have h : eval E (.seq t e) log = Spec.eval E (.seq t e) log := by
-      rw [eval_seq, spec_seq, (ih hwf hc hp _).1]
-    exact ⟨by rw [h], fun _ => h⟩
+  | leaf r => intro log; rfl
+  | seq t e ih => intro log; rw [eval_seq, spec_seq, ih hwf]
   | un op e ih =>
     intro log
-    simp only [devCond, Bool.or_eq_false_iff] at hc
-    have ih := ih hwf hc.2 hp log
-    have step1 : eval E (.un op e) log = (eval E e log).bind fun t l => (Spec.unary E op t l).bind K := by
-      rw [eval_un]
-      apply bind_congr_on
-      intro a l ea
-      rw [unary_eq E op a l (ResAll_ok WFRf _ (eval_wf E e hwf log) a l ea)]
-    have h : eval E (.un op e) log = Spec.eval E (.un op e) log := by
-      rw [step1, spec_un]
-      by_cases hl : isUnresLeaf e = true
-      · rw [leaf_of_isUnresLeaf e hl]; rfl
-      · have hl : isUnresLeaf e = false := by simpa using hl
-        have hs : op ≠ .typeof ∨ NoUnres (Spec.eval E e log) := Or.inr (spec_eval_noUnres E e hl log)
-        have hm : op ≠ .typeof ∨ NoUnres (eval E e log) := by
-          by_cases hy : yieldsUnres e = true
-          · rcases yieldsUnres_cases e hy with h1 | h1
-            · left
-              intro ho
-              have := hc.1
-              simp [ho, h1, hy] at this
-            · rw [hl] at h1; cases h1
-          · right
-            exact eval_noUnres E e (by simpa using hy) log
-        rw [unary_via_gv E op _ hm, unary_via_gv E op _ hs, ih.1]
-    exact ⟨by rw [h], fun _ => h⟩
+    rw [eval_un, spec_un, ← ih hwf log]
+    apply bind_congr_on
+    intro a l ea
+    rw [unary_eq E op a l (ResAll_ok WFRf _ (eval_wf E e hwf log) a l ea)]
   | bin op a b iha ihb =>
     intro log
-    simp only [devCond, Bool.or_eq_false_iff] at hc
-    simp only [devPlus, Bool.or_eq_false_iff] at hp
-    have iha := iha hwf.1 hc.1 hp.1.2 log
-    have h : eval E (.bin op a b) log = Spec.eval E (.bin op a b) log := by
-      rw [eval_bin, spec_bin, ← iha.1]
-      apply bind_congr_on
-      intro lv l2 elv
-      have hlv : WFV lv := ResAll_ok WFV _ (gv_wf E a hwf.1 log) lv l2 elv
-      have ihb := ihb hwf.2 hc.2 hp.2 l2
-      by_cases hadd : op = .num .add
-      · subst hadd
-        have hdev : (mayObj a && lateRef b) = false := by simpa using hp.1.1
-        by_cases hlate : lateRef b = false
-        · -- the right operand is not a bare reference: both sides see a value
-          rw [← ihb.1, gv, bind_assoc]
-          apply bind_congr_on
-          intro right l3 er
-          obtain ⟨rv, rfl⟩ := eval_settled E b hlate l2 right l3 er
-          have hrv : WFV rv := ResAll_ok WFRf _ (eval_wf E b hwf.2 l2) _ l3 er
-          show (binaryV E (.num .add) lv rv l3).bind K = _
-          rw [binaryV_eq E _ lv rv l3 hlv hrv]
-          rfl
-        · -- the left operand is a primitive: its ToPrimitive is not observable
-          have hobj : mayObj a = false := by
-            cases hm : mayObj a
-            · rfl
-            · rw [hm] at hdev; simp at hdev; exact absurd hdev hlate
-          obtain ⟨p, rfl⟩ := gv_prim E a hobj log lv l2 elv
-          rw [← ihb.1, gv, bind_assoc]
-          apply bind_congr
-          intro right l3
-          rw [binary_add_prim, bind_assoc]
-      · rw [← ihb.1]
-        have : ((eval E b l2).bind fun right l3 => (binary E op lv right l3).bind K)
-            = (gv (eval E b l2)).bind fun rv l4 => (binaryV E op lv rv l4).bind K := by
-          rw [gv, bind_assoc]
-          apply bind_congr
-          intro right l3
-          rw [binary_getValue E op lv right l3 hadd, bind_assoc]
-        rw [this]
-        apply bind_congr_on
-        intro rv l4 erv
-        have hrv : WFV rv := ResAll_ok WFV _ (gv_wf E b hwf.2 l2) rv l4 erv
-        rw [binaryV_eq E op lv rv l4 hlv hrv]
-    exact ⟨by rw [h], fun _ => h⟩
+    rw [eval_bin, spec_bin, ← iha hwf.1 log]
+    apply bind_congr_on
+    intro lv l2 elv
+    have hlv : WFV lv := ResAll_ok WFV _ (gv_wf E a hwf.1 log) lv l2 elv
+    rw [← ihb hwf.2 l2]
+    apply bind_congr_on
+    intro rv l4 erv
+    have hrv : WFV rv := ResAll_ok WFV _ (gv_wf E b hwf.2 l2) rv l4 erv
+    rw [binaryV_eq E op lv rv l4 hlv hrv]
   | and a b iha ihb =>
     intro log
-    simp only [devCond, Bool.or_eq_false_iff] at hc
-    simp only [devPlus, Bool.or_eq_false_iff] at hp
-    have h : eval E (.and a b) log = Spec.eval E (.and a b) log := by
-      rw [eval_and, spec_and, (iha hwf.1 hc.1 hp.1 log).1]
-      apply bind_congr
-      intro lv l2
-      rw [boolV_eq, (ihb hwf.2 hc.2 hp.2 l2).1]
-    exact ⟨by rw [h], fun _ => h⟩
+    rw [eval_and, spec_and, iha hwf.1 log]
+    apply bind_congr
+    intro lv l2
+    rw [boolV_eq, ihb hwf.2 l2]
   | or a b iha ihb =>
     intro log
-    simp only [devCond, Bool.or_eq_false_iff] at hc
-    simp only [devPlus, Bool.or_eq_false_iff] at hp
-    have h : eval E (.or a b) log = Spec.eval E (.or a b) log := by
-      rw [eval_or, spec_or, (iha hwf.1 hc.1 hp.1 log).1]
-      apply bind_congr
-      intro lv l2
-      rw [boolV_eq, (ihb hwf.2 hc.2 hp.2 l2).1]
-    exact ⟨by rw [h], fun _ => h⟩
+    rw [eval_or, spec_or, iha hwf.1 log]
+    apply bind_congr
+    intro lv l2
+    rw [boolV_eq, ihb hwf.2 l2]
   | cond c t f ihc iht ihf =>
     intro log
-    simp only [devCond, Bool.or_eq_false_iff] at hc
-    simp only [devPlus, Bool.or_eq_false_iff] at hp
-    have ihc := ihc hwf.1 hc.1.1 hp.1.1 log
-    constructor
-    · rw [eval_cond, spec_cond, gv_bind, gv_bind, ihc.1]
-      apply bind_congr
-      intro tv l2
-      rw [boolV_eq]
-      split
-      · rw [gv_K]; exact (iht hwf.2.1 hc.1.2 hp.1.2 l2).1
-      · rw [gv_K]; exact (ihf hwf.2.2 hc.2 hp.2 l2).1
-    · intro hl
-      simp only [lateRef, Bool.or_eq_false_iff] at hl
-      rw [eval_cond, spec_cond, ihc.1]
-      apply bind_congr
-      intro tv l2
-      rw [boolV_eq]
-      split
-      · rw [← (iht hwf.2.1 hc.1.2 hp.1.2 l2).2 hl.1, settled_roundtrip _ (eval_settled E t hl.1 l2)]
-      · rw [← (ihf hwf.2.2 hc.2 hp.2 l2).2 hl.2, settled_roundtrip _ (eval_settled E f hl.2 l2)]
+    rw [eval_cond, spec_cond, ihc hwf.1 log]
+    apply bind_congr
+    intro tv l2
+    rw [boolV_eq, iht hwf.2.1 l2, ihf hwf.2.2 l2]
 
 /-- the expression in a value context: result (or error) and complete effect log -/
-theorem run_eq (E : Env) (e : Ex) (hwf : WFEx e) (hc : devCond e = false) (hp : devPlus e = false) :
-    run E e = Spec.run E e := (eval_sim E e hwf hc hp []).1
+theorem run_eq (E : Env) (e : Ex) (hwf : WFEx e) : run E e = Spec.run E e := by
+  simp only [run, Spec.run, eval_eq E e hwf]
 
 /-! ## Corollaries -/
 
-/-- ORDER OF EVALUATION, unconditionally: for EVERY binary operator (arithmetic, bitwise, shift, relational,
-    equality, instanceof, in) applied to two side-effecting operand expressions `(log(tl), x)` and
-    `(log(tr), y)` with x, y any values (scripted objects included): same result or error and the same log —
-    tl, tr, then the conversions the operator prescribes, left before right. -/
+/-- ORDER OF EVALUATION: for EVERY binary operator (arithmetic, bitwise, shift, relational, equality,
+    instanceof, in) applied to two side-effecting operand expressions `(log(tl), x)` and `(log(tr), y)` with
+    x, y any values (scripted objects included): same result or error and the same log — tl, tr, then the
+    conversions the operator prescribes, left before right. -/
 theorem tagged_operands_eq (E : Env) (op : BOp) (tl tr : String) (lv rv : Vl) (hl : WFV lv) (hr : WFV rv) :
     run E (.bin op (.seq tl (.leaf (.value lv))) (.seq tr (.leaf (.value rv)))) =
     Spec.run E (.bin op (.seq tl (.leaf (.value lv))) (.seq tr (.leaf (.value rv)))) :=
-  run_eq E _ ⟨hl, hr⟩ (by simp [devCond]) (by simp [devPlus, lateRef])
-
-/-- `&&` / `||` / `?:` at any depth never differ from ES5 in a value context as long as no `typeof` sits
-    directly on a `?:` with an undeclared branch and no `+` has a bare reference on its right -/
-theorem logical_eq (E : Env) (a b c : Ex) (h : WFEx a ∧ WFEx b ∧ WFEx c)
-    (hc : devCond a = false ∧ devCond b = false ∧ devCond c = false)
-    (hp : devPlus a = false ∧ devPlus b = false ∧ devPlus c = false) :
-    run E (.and a b) = Spec.run E (.and a b) ∧ run E (.or a b) = Spec.run E (.or a b) ∧
-    run E (.cond c a b) = Spec.run E (.cond c a b) :=
-  ⟨run_eq E _ ⟨h.1, h.2.1⟩ (by simp [devCond, hc.1, hc.2.1]) (by simp [devPlus, hp.1, hp.2.1]),
-   run_eq E _ ⟨h.1, h.2.1⟩ (by simp [devCond, hc.1, hc.2.1]) (by simp [devPlus, hp.1, hp.2.1]),
-   run_eq E _ ⟨h.2.2, h.1, h.2.1⟩ (by simp [devCond, hc.1, hc.2.1, hc.2.2]) (by simp [devPlus, hp.1, hp.2.1, hp.2.2])⟩
+  run_eq E _ ⟨hl, hr⟩
 
 /-- §11.11: when ToBoolean(left) decides, the right operand is NOT evaluated: the result is the left VALUE
     and the log holds nothing of `b` (for any `b` whatsoever, in otto and in ES5) -/
@@ -1155,7 +748,7 @@ theorem toBoolean_object_silent (E : Env) (o : Ob) :
     run E (.un .lnot (.leaf (.value (.obj o)))) = .ok (.prim (.bool false)) [] := by
   simp [run, eval, unary, unaryV, boolV, getValue]
 
-/-! ## Non-vacuity and the witnesses of the two regions (kernel-evaluated) -/
+/-! ## Non-vacuity (kernel-evaluated) -/
 
 def E0 : Env := ⟨fun _ => .nan⟩
 def plainObj (id : Nat) (chain : List Nat) (v s : Beh) : Vl := .obj ⟨⟨id, false, v, s⟩, .none, chain, []⟩
@@ -1177,29 +770,20 @@ example : run E0 (.bin .instOf (.leaf (.value (plainObj 1 [100] .obj .obj))) (.l
 example : run E0 (.bin .inOp (.leaf (.value (plainObj 1 [100] (.prim (.str [98])) (.prim (.str [97])))))
     (.leaf (.value (.obj ⟨⟨2, false, .obj, .obj⟩, .none, [9], [[[120]], [[97]]]⟩)))) = .ok (.prim (.bool true)) ["1s"] := by decide
 
-/-- region `cond_reference`: typeof (true ? undeclared : undefined) answers in otto, throws in ES5 -/
-example : (match run E0 (.un .typeof (.cond (.leaf (.value (.prim (.bool true)))) (.leaf .unres) (.leaf (.value (.prim .undef))))),
-      Spec.run E0 (.un .typeof (.cond (.leaf (.value (.prim (.bool true)))) (.leaf .unres) (.leaf (.value (.prim .undef))))) with
-    | .ok _ [], .refError [] => true
-    | _, _ => false) = true := by decide
+/-- typeof (true ? undeclared : undefined) throws: `?:` does GetValue on its branch (was region `cond_reference`) -/
+example : run E0 (.un .typeof (.cond (.leaf (.value (.prim (.bool true)))) (.leaf .unres) (.leaf (.value (.prim .undef)))))
+    = .refError [] := by decide
 
-/-- region `plus_getvalue_late`: `a + g.p` calls a.valueOf before the getter in otto, after it in ES5 -/
+/-- `a + g.p` runs the getter before a.valueOf (was region `plus_getvalue_late`) -/
 example : (match run E0 (.bin (.num .add) (.leaf (.value (plainObj 1 [100] (.prim (.bool true)) .notCallable)))
-        (.leaf (.getter "G" (.prim (.bool true))))),
-      Spec.run E0 (.bin (.num .add) (.leaf (.value (plainObj 1 [100] (.prim (.bool true)) .notCallable)))
         (.leaf (.getter "G" (.prim (.bool true))))) with
-    | .ok _ ["1v", "G"], .ok _ ["G", "1v"] => true
-    | _, _ => false) = true := by decide
+    | .ok _ ["G", "1v"] => true
+    | _ => false) = true := by decide
 
-/-- the hypotheses of `run_eq` hold for a nested tree with objects, a getter and an undeclared identifier:
+/-- the hypothesis of `run_eq` holds for a nested tree with an object, a getter and an undeclared identifier:
     `!( (log("T"), o) && (g.p - undeclared) )` -/
 example : WFEx (.un .lnot (.and (.seq "T" (.leaf (.value (plainObj 1 [100] .obj .obj))))
-      (.bin (.num .sub) (.leaf (.getter "G" (.prim (.int .i8 5)))) (.leaf .unres)))) ∧
-    devCond (.un .lnot (.and (.seq "T" (.leaf (.value (plainObj 1 [100] .obj .obj))))
-      (.bin (.num .sub) (.leaf (.getter "G" (.prim (.int .i8 5)))) (.leaf .unres)))) = false ∧
-    devPlus (.un .lnot (.and (.seq "T" (.leaf (.value (plainObj 1 [100] .obj .obj))))
-      (.bin (.num .sub) (.leaf (.getter "G" (.prim (.int .i8 5)))) (.leaf .unres)))) = false := by
-  refine ⟨?_, by decide, by decide⟩
+      (.bin (.num .sub) (.leaf (.getter "G" (.prim (.int .i8 5)))) (.leaf .unres)))) := by
   simp [WFEx, WFRf, WFV, WFObj, WFBeh, plainObj, WF]
 
 end OttoVerif.C05.Ops2Thm
